@@ -529,6 +529,10 @@ func (s *MemoryBackend) ReadUsersetTuples(
 			Object:   filter.Object,
 			Relation: filter.Relation,
 		}) && tupleUtils.GetUserTypeFromUser(t.User) == tupleUtils.UserSet {
+			if len(filter.Conditions) > 0 && !slices.Contains(filter.Conditions, t.ConditionName) {
+				continue
+			}
+
 			if len(filter.AllowedUserTypeRestrictions) == 0 { // 1.0 model.
 				matches = append(matches, t)
 				continue
@@ -540,12 +544,8 @@ func (s *MemoryBackend) ReadUsersetTuples(
 			for _, allowedType := range filter.AllowedUserTypeRestrictions {
 				if allowedType.GetType() == userType && allowedType.GetRelation() == userRelation {
 					matches = append(matches, t)
-					continue
+					break
 				}
-			}
-
-			if len(filter.Conditions) > 0 && !slices.Contains(filter.Conditions, t.ConditionName) {
-				continue
 			}
 		}
 	}
